@@ -8,7 +8,8 @@ Every step applies at most one discrete event and then one integration over all 
 has an epoch of positive length and the integration epochs of the native program and of the graph coincide.
 
 events: {'op':'branch','parent':i,'ancient':bool}   new population (last axis) copied from i; parent continues; ancient => frozen sample
-        {'op':'split','parent':i}                   parent ends, two children: one in the parent's slot, one last
+        {'op':'split','parent':i}                   parent ends, two children; the native program then reorders the axes so that
+                                                    both children come last (axes always in order of creation)
         {'op':'admix','props':[...], 'merge':bool}  new population (last) mixing the live ones; merge => contributing parents end
         {'op':'pulse','dest':j,'props':[...]}       props over the other live populations in index order
         {'op':'remove','pop':i}                     population ends (unsampled lineage)
@@ -58,6 +59,8 @@ def program(draw, max_pops=5, max_steps=5, allow_ancient=True, allow_true_split=
         elif c == 'split':
             p = draw(st.sampled_from(active))
             ev = dict(op='split', parent=p)
+            live.pop(p)                      # both children go to the end (creation order is kept by an explicit reordering)
+            live.append(dict(frozen=False))
             live.append(dict(frozen=False))
         elif c == 'admix':
             w = [draw(st.sampled_from([0.0, 0.0, 1.0, 2.0, 3.0])) if i in active else 0.0 for i in range(k)]
@@ -113,8 +116,10 @@ def program(draw, max_pops=5, max_steps=5, allow_ancient=True, allow_true_split=
         T = draw(st.sampled_from([0.02, 0.05, 0.1]))
         steps.append(dict(event=ev, integrate=dict(T=T, sizes=sizes, mig=mig)))
     # sizes of a population continue from epoch to epoch only by chance; that is allowed (instantaneous size changes)
+    kmax = max(len(s['integrate']['sizes']) for s in steps)
+    lo, hi = {1: (12, 20), 2: (10, 16), 3: (10, 14), 4: (9, 11), 5: (8, 9)}[kmax]
     return dict(N0=draw(st.sampled_from([1000.0, 250.0, 12345.0])), theta=draw(st.sampled_from([1.0, 2.5])),
-                pts=draw(st.integers(10, 14)), ns=draw(st.integers(2, 3)), steps=steps)
+                pts=draw(st.integers(lo, hi)), ns=draw(st.integers(2, 3)), steps=steps)
 
 
 def features(prog):
@@ -152,8 +157,13 @@ def _nu_arg(nu0, nu1, kind, T):
     return lambda t, a=nu0, b=nu1, T=T: a + t / T * (b - a)
 
 
-def run_native(prog, return_names=False, rescale=1.0):
-    """Execute the program with dadi primitives. rescale=c re-expresses it relative to a reference size c times larger."""
+def run_native(prog, return_names=False, rescale=1.0, upto=None, swipe_at=None):
+    """Execute the program with dadi primitives. rescale=c re-expresses it relative to a reference size c times larger.
+    upto=t stops the program t time units (of 2*N0 generations) before its end (the program truncated at that time).
+    A frozen (ancient-sample) population is given the size its parent had when it was sampled; that number only enters the
+    time-step rule.
+    swipe_at=t (only while a single population exists): the history before t time units ago is replaced by equilibrium at the size
+    the population had at that time."""
     import dadi
     from dadi import Integration, PhiManip, Numerics
     c = rescale
@@ -162,8 +172,32 @@ def run_native(prog, return_names=False, rescale=1.0):
     phi = PhiManip.phi_1D(xx, nu=c, theta0=theta)
     names = ['p0']
     frozen = [False]
+    last_nu = [1.0]            # size of each axis at the end of the previous step (unscaled)
     counter = 1
-    for s in prog['steps']:
+    togo = sum(s['integrate']['T'] for s in prog['steps'])
+    stop = 0.0 if upto is None else upto
+    swiped = swipe_at is None
+    Ts = [s['integrate']['T'] for s in prog['steps']]
+    for si, s in enumerate(prog['steps']):
+        togo = sum(Ts[si:])               # suffix sums, formed identically everywhere, so that boundary times compare equal
+        if togo <= stop + 1e-12:
+            break
+        it = s['integrate']
+        t_init = 0.0
+        if not swiped:
+            if togo - it['T'] >= swipe_at - 1e-12:
+                # this whole step lies before the swipe time
+                if s['event'] or len(names) != 1:
+                    raise ValueError('swipe_at must fall while a single population exists')
+                a, b, kind = it['sizes'][0]
+                last_nu = [_size_after(a, b, kind, 1.0)]
+                continue
+            if s['event'] or len(names) != 1:
+                raise ValueError('swipe_at must fall while a single population exists')
+            a, b, kind = it['sizes'][0]
+            t_init = togo - swipe_at           # part of this step that is swiped away
+            phi = PhiManip.phi_1D(xx, nu=_size_after(a, b, kind, t_init / it['T']) * c, theta0=theta)
+            swiped = True
         ev = s['event']
         k = len(names)
         if ev:
@@ -185,6 +219,15 @@ def run_native(prog, return_names=False, rescale=1.0):
                 names.append('p%d' % counter)
                 counter += 1
                 frozen.append(bool(ev.get('ancient')))
+                last_nu.append(last_nu[p])
+                if ev['op'] == 'split' and p != k - 1:
+                    # move the first child from the parent's slot to the last-but-one position
+                    order = [i for i in range(k + 1) if i != p]
+                    order.insert(k - 1, p)
+                    phi = PhiManip.reorder_pops(phi, [i + 1 for i in order])
+                    names = [names[i] for i in order]
+                    frozen = [frozen[i] for i in order]
+                    last_nu = [last_nu[i] for i in order]
             elif ev['op'] == 'admix':
                 pr = ev['props']
                 if k == 2:
@@ -196,11 +239,13 @@ def run_native(prog, return_names=False, rescale=1.0):
                 names.append('p%d' % counter)
                 counter += 1
                 frozen.append(False)
+                last_nu.append(1.0)
                 if ev['merge']:
                     for i in reversed([i for i in range(k) if pr[i] > 0]):
                         phi = PhiManip.remove_pop(phi, xx, i + 1)
                         names.pop(i)
                         frozen.pop(i)
+                        last_nu.pop(i)
             elif ev['op'] == 'pulse':
                 d = ev['dest']
                 f = getattr(PhiManip, {2: ['phi_2D_admix_2_into_1', 'phi_2D_admix_1_into_2'],
@@ -213,12 +258,15 @@ def run_native(prog, return_names=False, rescale=1.0):
                 phi = PhiManip.remove_pop(phi, xx, ev['pop'] + 1)
                 names.pop(ev['pop'])
                 frozen.pop(ev['pop'])
-        it = s['integrate']
+                last_nu.pop(ev['pop'])
         k = len(names)
-        T = it['T'] * c
-        nus = [_nu_arg(a * c, b * c, kind, T) for a, b, kind in it['sizes']]
+        Tfull = it['T'] * c
+        part = min(it['T'], togo - stop)          # the last step may be cut short by upto
+        T = part * c
+        sizes = [[last_nu[i], last_nu[i], 'constant'] if frozen[i] else it['sizes'][i] for i in range(k)]
+        nus = [_nu_arg(a * c, b * c, kind, Tfull) for a, b, kind in sizes]
         if k == 1:
-            phi = Integration.one_pop(phi, xx, T, nu=nus[0], theta0=theta, frozen=frozen[0])
+            phi = Integration.one_pop(phi, xx, T, nu=nus[0], theta0=theta, frozen=frozen[0], initial_t=t_init * c)
         else:
             kw = {}
             for i in range(k):
@@ -229,16 +277,27 @@ def run_native(prog, return_names=False, rescale=1.0):
                         kw['m%d%d' % (i + 1, j + 1)] = it['mig'][i][j] / c
             f = {2: Integration.two_pops, 3: Integration.three_pops, 4: Integration.four_pops, 5: Integration.five_pops}[k]
             phi = f(phi, xx, T, theta0=theta, **kw)
+        last_nu = [_size_after(a, b, kind, part / it['T']) for a, b, kind in sizes]
     fs = dadi.Spectrum.from_phi(phi, [prog['ns']] * len(names), [xx] * len(names), pop_ids=list(names))
     if return_names:
         return fs, names, frozen
     return fs
 
 
+def _size_after(a, b, kind, frac):
+    if kind == 'constant':
+        return a
+    if kind == 'exponential':
+        return a * (b / a) ** frac
+    return a + frac * (b - a)
+
+
 # ---------------------------------------------------------------------------------------------- translation to demes
-def to_demes(prog, time_units='generations', generation_time=None, scale=1.0):
+def to_demes(prog, time_units='generations', generation_time=None, scale=1.0, upto=None):
     """Build the demes graph of the program's meaning with demes.Builder (independent of dadi's exporter).
-    scale multiplies sizes and times and divides migration rates. Returns (graph, sampled_demes, sample_times)."""
+    scale multiplies sizes and times and divides migration rates. Returns (graph, sampled_demes, sample_times).
+    upto=t: the graph is still the whole program, but the returned samples are those of the program truncated t time units before
+    its end (every live deme sampled at that time, ancient samples at their own times)."""
     import demes
     N0 = prog['N0'] * scale
     Ttot = sum(s['integrate']['T'] for s in prog['steps'])
@@ -255,7 +314,13 @@ def to_demes(prog, time_units='generations', generation_time=None, scale=1.0):
     migs, pulses = [], []
     # axis bookkeeping must mirror run_native: entries are deme names or ('ancient', deme, time)
     axes = ['p0']
-    for s in prog['steps']:
+    stop = 0.0 if upto is None else upto
+    snap = None
+    Ts = [s['integrate']['T'] for s in prog['steps']]
+    for si, s in enumerate(prog['steps']):
+        togo = sum(Ts[si:])
+        if snap is None and togo <= stop + 1e-12:
+            snap = list(axes)
         ev = s['event']
         t_now = gen(togo)
         if ev:
@@ -277,8 +342,8 @@ def to_demes(prog, time_units='generations', generation_time=None, scale=1.0):
                 for nm in (a, b):
                     demes_d[nm] = dict(start_time=t_now, ancestors=[parent], proportions=[1.0], epochs=[])
                     order.append(nm)
-                axes[ev['parent']] = a
-                axes.append(b)
+                axes.pop(ev['parent'])
+                axes += [a, b]
             elif ev['op'] == 'admix':
                 pr = ev['props']
                 name = 'p%d' % counter
@@ -298,9 +363,7 @@ def to_demes(prog, time_units='generations', generation_time=None, scale=1.0):
             elif ev['op'] == 'remove':
                 axes.pop(ev['pop'])
         it = s['integrate']
-        end = gen(togo - it['T'])
-        if abs(togo - it['T']) < 1e-12:
-            end = 0.0
+        end = gen(sum(Ts[si + 1:]))
         for i, ax in enumerate(axes):
             if isinstance(ax, tuple):
                 continue
@@ -314,7 +377,6 @@ def to_demes(prog, time_units='generations', generation_time=None, scale=1.0):
             for j, aj in enumerate(axes):
                 if i != j and it['mig'][i][j] != 0:
                     migs.append(dict(source=aj, dest=ai, rate=it['mig'][i][j] / (2.0 * N0), start_time=t_now, end_time=end))
-        togo -= it['T']
     b = demes.Builder(time_units=time_units, **({} if time_units == 'generations' else dict(generation_time=generation_time)))
     for name in order:
         d = demes_d[name]
@@ -333,11 +395,11 @@ def to_demes(prog, time_units='generations', generation_time=None, scale=1.0):
         b.add_pulse(sources=p['sources'], dest=p['dest'], proportions=p['proportions'], time=p['time'] * tfac)
     g = b.resolve()
     sampled, times = [], []
-    for ax in axes:
+    for ax in (axes if snap is None else snap):
         if isinstance(ax, tuple):
             sampled.append(ax[1])
             times.append(ax[2] * tfac)
         else:
             sampled.append(ax)
-            times.append(0.0)
+            times.append(gen(stop) * tfac)
     return g, sampled, times
